@@ -14,16 +14,16 @@ CLAIMED = {
    note="Rows after the first terminated step are only required to be stored rows. Completeness of the admissible set is a probe, not a verdict.",
    technique="deterministic simulation: seeded operation histories, exhaustive start enumeration through generator seam, tag oracle"),
  "C08": dict(level="exploration", engine="BufferSim", design="§4 C08",
-   text="Seeded search over add / sample / update_priority / reset_max / restart / select-task histories of LAP, PER, prioritised sub-trajectory buffer and their multi-task wrapper; the proportional law is decided exactly (order-free, +-2 counts on an equidistant grid of variates fed through the generator seam), and priority bookkeeping is decided through that same law after every operation; importance weights against the closed form.",
+   text="Seeded search over add / sample / update_priority / reset_max / restart / select-task histories of LAP, PER, prioritised sub-trajectory buffer and their multi-task wrapper; the proportional law is decided exactly (order-free, +-2 counts on an equidistant grid of variates fed through the generator seam), and priority bookkeeping is decided through that same law after every operation; importance weights against the closed form. 2 % of the plans are training runs (TD3+LAP, PER-DDQN, TD7, MR.Q) with a recording buffer: positive finite priorities, update directly after sample, lap_priority / per_priority non-decreasing on the |TD| values that flowed.",
    note="Assumes each index's pre-image under the sampler is an interval of the variate. Updates whose batch was overwritten between sample and update are not generated (interpretation, DESIGN §4 C08).",
    technique="deterministic simulation: seeded operation histories, generator-seam variate sweep vs cumulative-interval oracle"),
  "C19": dict(level="fault_enumeration", engine="BufferSim twins + ModuleSim", design="§4 C19",
-   text="Fault = restart (serialise, discard, reload) injected at arbitrary prefixes of operation histories: the reloaded buffer and a never-reloaded twin receive the same continuation and must agree bitwise on every observable; the saved original is still checked against the reference.",
+   text="Fault = restart (serialise, discard, reload) injected at arbitrary prefixes of operation histories: the reloaded buffer and a never-reloaded twin receive the same continuation and must agree bitwise on every observable; the saved original is still checked against the reference. Function approximators (ten module types): real optimiser steps interleaved with save_pickle (+-cpu, also to an already used path) and Orbax checkpoints through LoggerList([OrbaxCheckpointer, StandardLogger]); every file is reloaded and must match the state hash and probe outputs recorded at its save event.",
    note="Torn or failing writes are not injected (the property promises nothing about them). pickle / Orbax / file system are real and trusted.",
    technique="deterministic simulation with restart faults: twin continuation, bitwise comparison"),
 
  "C01": dict(level="exploration", engine="TrainSim", design="§4 C01",
-   text="The complete train_* routines run against a scripted environment whose scheduler places episode ends (terminated / truncated, length 1, at warm-up end, ring wrap, budget end); every stored row is matched to the environment's own log through unique observation tags, and the acting module's probe input is compared with the current observation at every env.step. Sampled schedules, not proof.",
+   text="The complete train_* routines run against a scripted environment whose scheduler places episode ends (terminated / truncated, length 1, at warm-up end, ring wrap, budget end); every stored row is matched to the environment's own log through unique observation tags, and the acting module's probe input is compared with the current observation at every env.step. On-policy collectors (REINFORCE, actor-critic, A2C, PPO) are captured through their module-level names and aligned per environment (incl. the prepared policy-gradient arrays); multi-task training through train_smt / train_active_mt checks every per-task buffer against the context active at that step. Sampled schedules, not proof.",
    note="Stored rows are read through the documented `buffer` mapping. SimEnv ignores actions. On-policy collectors and tabular loops are covered by their own plan kinds.",
    technique="deterministic simulation: scripted-environment schedule search over complete training runs, env-log vs stored-transition oracle, probes"),
  "C05": dict(level="exploration", engine="TrainSim", design="§4 C05, Appendix A",
@@ -31,15 +31,15 @@ CLAIMED = {
    note="NARROW SLICE: event granularity only. Contamination between two routines scheduled on the same event shows only through optimiser step counters.",
    technique="deterministic simulation: scripted-environment schedule search over complete training runs, bitwise state-hash frame conditions between events"),
  "C06": dict(level="exploration", engine="TrainSim", design="§4 C06, Appendix A",
-   text="Target / online parameter leaves are snapshotted at every env event and logged update of simulated training with tau in {0,0.005,0.3,1} and delays 1-7: scheduled soft updates must satisfy the Polyak recurrence (4e-6 rel., exact for tau 0/1), hard updates bitwise equality (TD7 chain link by link), all other intervals bitwise constancy; no shared nnx.Variable between target and online.",
+   text="Target / online parameter leaves are snapshotted at every env event and logged update of simulated training with tau in {0,0.005,0.3,1} and delays 1-7: scheduled soft updates must satisfy the Polyak recurrence (4e-6 rel., exact for tau 0/1), hard updates bitwise equality (TD7 chain link by link), all other intervals bitwise constancy; no shared nnx.Variable between target and online; twin runs with target updates neutralised (tau=0 / no sync) decide that the update leaves the online networks bit-identical; resume chains decide that the cadence continues from the returned counter.",
    note="Targets created inside a routine are observable from their first record_epoch. Arbitrary parameter trees / layer types beyond those the routines build are not generated.",
    technique="deterministic simulation: scripted-environment schedule search over complete training runs, recurrence and frame oracles on parameter snapshots"),
  "C10": dict(level="exploration", engine="TrainSim", design="§4 C10",
-   text="Simulated training of DDPG, TD3, TD3+LAP, TD7, MR.Q, PETS with adversarial Box bounds, noise and noise-clip settings and saturating policies: the environment checks every received action, the target critic's probe yields every smoothed target action (in box, within noise_clip*half-range of the target policy output on the same rows), the PETS reward-model probe yields every CEM candidate.",
+   text="Simulated training of DDPG, TD3, TD3+LAP, TD7, MR.Q, PETS with adversarial Box bounds, noise and noise-clip settings and saturating policies: the environment checks every received action, the target critic's probe yields every smoothed target action (in box, within noise_clip*half-range of the target policy output on the same rows), the PETS reward-model probe yields every CEM candidate; pooled over the tier, standardised un-clipped exploration and target-smoothing perturbations must be standard normal (noise-scale clause).",
    note="'Any network output however large' and the key-determined form of the noise are pure clauses, not decided. SAC is not in the property's list.",
    technique="deterministic simulation: scripted-environment schedule search over complete training runs, env-side bound monitor and module probes"),
  "C11": dict(level="exploration", engine="TrainSim + TabularSim + SchedulerSim", design="§4 C11",
-   text="Protocol-checking environment (step after episode end, step counts), budgets, episode limits, starting counters, zero budgets and resume chains fed with the returned counter; parameter snapshots at the warm-up boundary; returned counter = start + executed on every exit path.",
+   text="Protocol-checking environment (step after episode end, step counts), budgets, episode limits, starting counters, zero budgets and resume chains fed with the returned counter; parameter snapshots at the warm-up boundary; returned counter = start + executed on every exit path; continued long runs (global_step near 250/500/750/1000), restart at 0 with a re-used buffer; multi-task schedulers (train_smt / train_active_mt / train_uts) with a contract-faithful stub backbone and real backbones: per-task totals = executed steps <= budget; task selectors (round robin, four D-UCB strategies, mapb.DUCB) against a float64 discounted-UCB reference; generate_rollout on terminating and truncating episodes.",
    note="DQN family warm-up gate is `step > batch_size` (the gate named in the anchors). An extra reset after the last episode is allowed.",
    technique="deterministic simulation: scripted-environment schedule search over complete training runs, protocol monitor, step accounting, resume chains"),
  "C13": dict(level="exploration", engine="TrainSim + TabularSim", design="§4 C13",
@@ -56,12 +56,12 @@ CLAIMED = {
    note="'Crossing the threshold' = epoch_before < threshold <= epoch_after. Episodes ending before learning_starts belong to no window.",
    technique="deterministic simulation: scripted outcome histories vs reference state machine; event-log oracle inside simulated training"),
  "C20": dict(level="exploration", engine="LoggerSim", design="§4 C20",
-   text="Call histories (start/stop/record_stat/record_epoch/define_*) on MemoryLogger, StandardLogger, OrbaxCheckpointer and LoggerLists of them under a simulated clock with forward and backward jumps, against a list reference: records, locations, counters, member agreement, checkpoint cadence vs floor(step/interval) crossings (Orbax) / every f-th epoch (standard), every listed path restorable to the state hashed at that record.",
-   note="Real Orbax and file system (per-run scratch directory). Decreasing steps and re-definition of a frequency after records are outside the quantifier and not generated.",
+   text="Call histories (start/stop/record_stat/record_epoch/define_*) on MemoryLogger, StandardLogger, OrbaxCheckpointer and LoggerLists of them under a simulated clock with forward and backward jumps, against a list reference: records, locations, counters, member agreement, checkpoint cadence vs floor(step/interval) crossings (Orbax) / every f-th epoch (standard), every listed path restorable to the state hashed at that record. One disk fault kind is injected (the member's checkpointer.save raises ENOSPC once): afterwards every LISTED path must still be restorable.",
+   note="Real Orbax and file system (per-run scratch directory). Decreasing steps and re-definition of a frequency after records are outside the quantifier and not generated. Torn / partial writes are not injected.",
    technique="deterministic simulation: seeded call histories, simulated clock seam with jumps, reference model, restore oracle"),
 
  "C09": dict(level="fault_enumeration", engine="TwinRun", design="§4 C09",
-   text="Every plan is executed in three fresh interpreters: twins with the same plan but different PYTHONHASHSEED, global numpy/random state and (simulated) wall clock must produce bit-identical event logs (actions received by the environment, logged statistics without time fields, MemoryLogger series, stored buffer rows, returned counters, hashes of all returned modules and optimisers); a third run with another seed must differ.",
+   text="Every plan is executed in three fresh interpreters: twins with the same plan but different PYTHONHASHSEED, global numpy/random state and (simulated) wall clock must produce bit-identical event logs (actions received by the environment, logged statistics without time fields, MemoryLogger series, stored buffer rows, returned counters, hashes of all returned modules and optimisers); a third run with another seed must differ. Twin B first executes a different configuration of the same routine in the same interpreter (history independence). Covers all train_* routines incl. tabular learners and the multi-task schedulers.",
    note="XLA thread configuration and platform are held fixed (same machine). One plan per routine and configuration; seeds are sampled.",
    technique="deterministic simulation twin runs under perturbation of hash seed, global RNG state and clock"),
 
